@@ -113,9 +113,10 @@ def prop_table(case):
         return test_recovery
 
     def kwargs(full):
-        kw = dict(initial_infecteds=list(I0), tmin=tmin, tmax=tmax, return_full_data=full)
+        single = case.get('single')
+        kw = dict(initial_infecteds=(I0[0] if single and len(I0) == 1 else list(I0)), tmin=tmin, tmax=tmax, return_full_data=full)
         if R0:
-            kw['initial_recovereds'] = list(R0)
+            kw['initial_recovereds'] = (R0[0] if single and len(R0) == 1 else list(R0))   # a single node is documented for discrete_SIR
         if durations:
             kw['test_recovery'] = make_recovery()
         return kw
@@ -174,6 +175,8 @@ def prop_table(case):
         classes.append('finite-tmax')
     if nt:
         classes.append('nontrivial')
+    if case.get('single') and (len(I0) == 1 or len(R0) == 1):
+        classes.append('single-node-form')
     return Result(fails, nontrivial=nt, classes=classes)
 
 
